@@ -103,6 +103,25 @@ Proof.
   intros Hc Hinv Hf Hmid Hal Hok Hr. apply step_inv; try assumption. apply (split_keeps_inv c s b blk); assumption.
 Qed.
 
+(* which part is "the newest allocation" afterwards: the part that touches the bump position - the
+   second one in an upward arena, the first one in a downward arena - exactly when the whole was *)
+Theorem split_is_last c s ptr size mid :
+  (up c = true -> is_last c s (ptr + mid) (size - mid) = is_last c s ptr size) /\
+  (up c = false -> is_last c s ptr mid = is_last c s ptr size).
+Proof.
+  unfold is_last. split; intros Hu; rewrite Hu; destruct (cur_chunk s) as [ch|]; try reflexivity.
+  replace (ptr + mid + (size - mid)) with (ptr + size) by lia. reflexivity.
+Qed.
+
+(* and the other part is not, unless it is empty or the part at the position is *)
+Theorem split_other_part_not_last c s ptr size mid ch :
+  cur_chunk s = Some ch -> 0 < mid < size ->
+  (up c = true -> is_last c s ptr mid = true -> is_last c s ptr size = false) /\
+  (up c = false -> is_last c s (ptr + mid) (size - mid) = true -> is_last c s ptr size = false).
+Proof.
+  intros Hc Hm. unfold is_last. rewrite Hc. split; intros Hu; rewrite Hu; intros H; apply Z.eqb_eq in H; apply Z.eqb_neq; lia.
+Qed.
+
 (* histories that interleave arena operations with splits *)
 Inductive xop := XOp (o : op) (r : resp) | XSplit (b : nat) (mid ralign : Z).
 Definition xstep (c : cfg) (s : arena) (x : xop) : arena :=
